@@ -106,6 +106,15 @@ func (i *Interp) conv(fr *frame, tDst, tSrc types.Type, x value) value {
 				return t
 			}
 			if w, _ := intInfo(tDst); w == 0 {
+				if dk == types.Float64 || dk == types.Float32 {
+					// floats are concrete only: fork over the feasible integer values
+					k := i.concretize(t, -1<<62, 1<<62, fr)
+					_, signed := intInfo(tSrc)
+					if signed {
+						return convBasic(dk, int64(k))
+					}
+					return convBasic(dk, uint64(k))
+				}
 				panic(unsupported{fmt.Sprintf("conversion of symbolic %s -> %s", tSrc, tDst)})
 			}
 			return i.intConv(t, tSrc, tDst)
